@@ -201,7 +201,20 @@ struct Replacement {
     insert_index: usize,
 }
 
-fn expand(exprs: &mut Vec<SExpr>, templates: &[Template], _lsp_hints: &mut LspHints) -> Result<()> {
+fn expand(exprs: &mut Vec<SExpr>, templates: &[Template], lsp_hints: &mut LspHints) -> Result<()> {
+    expand_inner(exprs, templates, lsp_hints, &mut vec![])
+}
+
+/// `active` holds the names of the templates whose expansion is currently being expanded.
+/// A template-expand of one of them inside that expansion (which can only come from variable
+/// substitution, e.g. `(deftemplate again (a) ($a again $a))` called as
+/// `(template-expand again template-expand)`) would reproduce itself forever.
+fn expand_inner(
+    exprs: &mut Vec<SExpr>,
+    templates: &[Template],
+    _lsp_hints: &mut LspHints,
+    active: &mut Vec<String>,
+) -> Result<()> {
     let mut replacements: Vec<Replacement> = vec![];
     loop {
         for (expr_index, expr) in exprs.iter_mut().enumerate() {
@@ -212,7 +225,7 @@ fn expand(exprs: &mut Vec<SExpr>, templates: &[Template], _lsp_hints: &mut LspHi
                         l.t.first().and_then(|expr| expr.atom(None)),
                         Some("template-expand") | Some("t!")
                     ) {
-                        expand(&mut l.t, templates, _lsp_hints)?;
+                        expand_inner(&mut l.t, templates, _lsp_hints, active)?;
                         continue;
                     }
 
@@ -241,6 +254,13 @@ fn expand(exprs: &mut Vec<SExpr>, templates: &[Template], _lsp_hints: &mut LspHi
                                     )
                                 })
                             })?;
+                    if active.iter().any(|name| *name == template.name) {
+                        bail_span!(
+                            l,
+                            "template-expand of {} occurs inside its own expansion; templates must not expand to themselves",
+                            &template.name
+                        );
+                    }
                     if l.t.len() - 2 != template.vars.len() {
                         bail_span!(l, "template-expand of {} needs {} parameters but instead found {}.\nParameters: {}",
                     &template.name, template.vars.len(), l.t.len() - 2, template.vars.join(" "));
@@ -286,6 +306,13 @@ fn expand(exprs: &mut Vec<SExpr>, templates: &[Template], _lsp_hints: &mut LspHi
                     });
 
                     while evaluate_conditionals(&mut expanded_template)? {}
+
+                    // Expand template-expands produced by this expansion now, while it is known
+                    // which templates they are nested in.
+                    active.push(template.name.clone());
+                    let res = expand_inner(&mut expanded_template, templates, _lsp_hints, active);
+                    active.pop();
+                    res?;
 
                     replacements.push(Replacement {
                         insert_index: expr_index,
